@@ -29,6 +29,8 @@ type Env struct {
 	imports  map[string]*types.Package
 	quiet    bool
 	own      bool // evaluating the contract of the function being translated
+	pol      int  // +1: must be proved, -1: may be used, 0: unknown
+	inQuant  bool
 	bound    map[string]Val
 }
 
@@ -61,6 +63,41 @@ func (tr *FnTrans) envAt(b *ssa.BasicBlock, idx int, heap, old *Heap) *Env {
 		}
 	}
 	return e
+}
+
+// evalGoal evaluates a formula that has to be proved (universal quantifiers are skolemised).
+func (e *Env) evalGoal(x *Expr) string {
+	e2 := *e
+	e2.pol = 1
+	return e2.evalBool(x)
+}
+
+// evalHyp evaluates a formula that may be assumed (universal quantifiers are also instantiated).
+func (e *Env) evalHyp(x *Expr) string {
+	e2 := *e
+	e2.pol = -1
+	return e2.evalBool(x)
+}
+
+func (e *Env) withPol(p int) *Env {
+	e2 := *e
+	e2.pol = p
+	return &e2
+}
+
+func hasQuant(x *Expr) bool {
+	if x == nil {
+		return false
+	}
+	if x.Op == "forall" || x.Op == "exists" {
+		return true
+	}
+	for _, a := range x.A {
+		if hasQuant(a) {
+			return true
+		}
+	}
+	return false
 }
 
 func (e *Env) evalBool(x *Expr) (out string) {
@@ -206,7 +243,7 @@ func (e *Env) eval(x *Expr) Val {
 	case "bin":
 		return e.binary(x)
 	case "cond":
-		c := e.eval(x.A[0])
+		c := e.withPol(0).eval(x.A[0])
 		a, b := e.eval(x.A[1]), e.eval(x.A[2])
 		a, b = e.unify(a, b)
 		return Val{T: fmt.Sprintf("(ite %s %s %s)", c.T, a.T, b.T), Ty: a.Ty}
@@ -301,6 +338,10 @@ func (e *Env) ident(name string) Val {
 		if v, ok := e.localVar(name); ok {
 			return v
 		}
+		if t, ok := tr.localType(name); ok {
+			// the variable exists in the function but has no value on this path yet
+			return tr.ghostLocal(name, t)
+		}
 	}
 	// package-level constants and variables
 	if e.pkg != nil {
@@ -380,7 +421,7 @@ func (e *Env) localVar(name string) (Val, bool) {
 					_ = id
 				}
 				if obj := in.Object(); obj != nil && obj.Name() == name {
-					if _, isVar := obj.(*types.Var); !isVar {
+					if vobj, isVar := obj.(*types.Var); !isVar || vobj.IsField() || (vobj.Pkg() != nil && vobj.Parent() == vobj.Pkg().Scope()) {
 						continue
 					}
 					v, ok := tr.vals[in.X]
@@ -432,7 +473,7 @@ func (e *Env) unary(x *Expr) Val {
 	tr := e.tr
 	switch x.S {
 	case "!":
-		v := e.eval(x.A[0])
+		v := e.withPol(-e.pol).eval(x.A[0])
 		return Val{T: tr.boolNot(v.T), Ty: boolT}
 	case "-":
 		v := e.eval(x.A[0])
@@ -468,7 +509,20 @@ func (e *Env) binary(x *Expr) Val {
 	op := x.S
 	switch op {
 	case "&&", "||", "==>", "<==>":
-		a, b := e.eval(x.A[0]), e.eval(x.A[1])
+		if op == "<==>" && e.pol != 0 && (hasQuant(x.A[0]) || hasQuant(x.A[1])) {
+			l := &Expr{Op: "bin", S: "==>", A: []*Expr{x.A[0], x.A[1]}}
+			r := &Expr{Op: "bin", S: "==>", A: []*Expr{x.A[1], x.A[0]}}
+			return Val{T: and(e.eval(l).T, e.eval(r).T), Ty: boolT}
+		}
+		var a, b Val
+		switch op {
+		case "==>":
+			a, b = e.withPol(-e.pol).eval(x.A[0]), e.eval(x.A[1])
+		case "<==>":
+			a, b = e.withPol(0).eval(x.A[0]), e.withPol(0).eval(x.A[1])
+		default:
+			a, b = e.eval(x.A[0]), e.eval(x.A[1])
+		}
 		switch op {
 		case "&&":
 			return Val{T: and(a.T, b.T), Ty: boolT}
@@ -647,6 +701,23 @@ func findField(t types.Type, name string) ([]int, types.Type) {
 func (e *Env) addrOf(x *Expr) (string, types.Type, bool) {
 	tr := e.tr
 	switch x.Op {
+	case "id":
+		if _, isLocal := e.bound[x.S]; isLocal {
+			return "", nil, false
+		}
+		if e.pkg != nil {
+			if obj, ok := e.pkg.Scope().Lookup(x.S).(*types.Var); ok && obj != nil {
+				if _, shadow := e.vars[x.S]; !shadow {
+					key := obj.Pkg().Path() + "." + obj.Name()
+					id, ok := tr.eng.globalIDs[key]
+					if !ok {
+						id = len(tr.eng.globalIDs) + 1
+						tr.eng.globalIDs[key] = id
+					}
+					return fmt.Sprintf("(glob %d)", id), obj.Type(), true
+				}
+			}
+		}
 	case "un":
 		if x.S == "*" {
 			v := e.eval(x.A[0])
@@ -963,20 +1034,93 @@ func (e *Env) isNil(v Val) string {
 
 func (e *Env) quant(x *Expr) Val {
 	tr := e.tr
-	e2 := *e
-	e2.bound = map[string]Val{}
-	for k, v := range e.bound {
-		e2.bound[k] = v
+	mk := func(bound map[string]Val) *Env {
+		e2 := *e
+		e2.bound = map[string]Val{}
+		for k, v := range e.bound {
+			e2.bound[k] = v
+		}
+		for k, v := range bound {
+			e2.bound[k] = v
+		}
+		return &e2
+	}
+	toProve := (x.Op == "forall" && e.pol > 0) || (x.Op == "exists" && e.pol < 0)
+	toUse := (x.Op == "forall" && e.pol < 0) || (x.Op == "exists" && e.pol > 0)
+	if toProve && !e.inQuant {
+		// skolemise: fresh constants stand for the bound variables
+		b := map[string]Val{}
+		for _, qv := range x.Vars {
+			t := e.typeByName(qv.Type)
+			n := tr.smt.fresh("sk_"+qv.Name, tr.smt.sortOf(t))
+			v := Val{T: n, Ty: t}
+			b[qv.Name] = v
+			tr.idxCands = append(tr.idxCands, v)
+		}
+		return mk(b).eval(x.A[0])
 	}
 	var decls []string
+	b := map[string]Val{}
 	for _, qv := range x.Vars {
 		t := e.typeByName(qv.Type)
 		n := "q!" + qv.Name
-		e2.bound[qv.Name] = Val{T: n, Ty: t}
+		b[qv.Name] = Val{T: n, Ty: t}
 		decls = append(decls, fmt.Sprintf("(%s %s)", n, tr.smt.sortOf(t)))
 	}
-	body := e2.eval(x.A[0])
-	return Val{T: fmt.Sprintf("(%s (%s) %s)", x.Op, strings.Join(decls, " "), body.T), Ty: boolT}
+	qe := mk(b)
+	qe.inQuant = true
+	body := qe.eval(x.A[0])
+	q := fmt.Sprintf("(%s (%s) %s)", x.Op, strings.Join(decls, " "), body.T)
+	if toUse && !e.inQuant && len(x.Vars) == 1 {
+		// instantiate with the index terms known at this point
+		qv := x.Vars[0]
+		t := e.typeByName(qv.Type)
+		srt := tr.smt.sortOf(t)
+		var insts []string
+		seen := map[string]bool{}
+		cands := tr.candidates(srt)
+		for _, c := range cands {
+			if seen[c] {
+				continue
+			}
+			seen[c] = true
+			ie := mk(map[string]Val{qv.Name: {T: c, Ty: t}})
+			insts = append(insts, ie.eval(x.A[0]).T)
+		}
+		if x.Op == "forall" {
+			return Val{T: and(append([]string{q}, insts...)...), Ty: boolT}
+		}
+		return Val{T: or(append([]string{q}, insts...)...), Ty: boolT}
+	}
+	return Val{T: q, Ty: boolT}
+}
+
+// candidates lists index terms of the given sort that quantified hypotheses are instantiated with.
+func (tr *FnTrans) candidates(srt string) []string {
+	var out []string
+	add := func(t string) {
+		out = append(out, t)
+	}
+	n := 0
+	for i := len(tr.idxCands) - 1; i >= 0 && n < 8; i-- {
+		c := tr.idxCands[i]
+		if tr.smt.sortOf(c.Ty) != srt {
+			continue
+		}
+		n++
+		add(c.T)
+		if isInteger(c.Ty) {
+			one := tr.smt.intLit(big.NewInt(1), intWidth(c.Ty))
+			if tr.smt.intMode {
+				add(fmt.Sprintf("(+ %s 1)", c.T))
+				add(fmt.Sprintf("(- %s 1)", c.T))
+			} else {
+				add(fmt.Sprintf("(bvadd %s %s)", c.T, one))
+				add(fmt.Sprintf("(bvsub %s %s)", c.T, one))
+			}
+		}
+	}
+	return out
 }
 
 // declareSpec makes sure a spec function is declared in the prelude and returns its SMT name.
